@@ -16,7 +16,10 @@ AWKWARD_NAMES = ["Options", "OptionalFeature", "Vec3", "Vector", "HashSetStats",
                  "Date", "Map", "Set", "Error", "Event", "Promise", "Array", "Object", "Number", "Partial", "Symbol",
                  # multi-byte identifiers: every string operation of the tool on a type expression must respect character boundaries
                  "Größe", "データ", "Zoë"]
-SITES = ("param", "return", "field", "channel", "event")
+SITES = ("param", "return", "field", "channel", "event", "event-let")
+# initialisers of annotated locals that carry an event payload: the annotation is the payload's type, whatever produces the value
+LET_INITS = ["Default::default()", "Utc::now()", "Vec::new()", "std::env::temp_dir()", "HashMap::with_capacity(4)", "store::load(&app)", "Builder::new().build()",
+             "Uuid::new_v4()", "make()", "Decimal::from(3)", "Named::load_all()", "other", "&*shared"]
 
 
 def with_static(t):
@@ -43,6 +46,7 @@ def build_batch(types, external=(), spelling=None):
         src.append(rg.struct_src("F%d" % i, [("v", ws)]))
         src.append(rg.command_src("cmd_%d" % i, [("p", r), ("f", "F%d" % i), ("ch", "Channel<%s>" % ws)], ws))
         src.append("pub fn ev_%d(app: AppHandle, x: %s) {\n    app.emit(\"e%d\", x).unwrap();\n}\n\n" % (i, r, i))
+        src.append("pub fn evl_%d(app: AppHandle, other: Named) {\n    let y: %s = %s;\n    app.emit(\"l%d\", y).unwrap();\n}\n\n" % (i, ws, LET_INITS[i % len(LET_INITS)], i))
     return [("lib.rs", "".join(src))]
 
 
@@ -145,6 +149,14 @@ def observe(out, types, mode):
                 res.append((i, "event", sh.ts_shape(l["payload"]), ""))
             except sh.ShapeError as e:
                 res.append((i, "event", None, str(e)))
+        l = listeners.get("l%d" % i)
+        if l is None or l["payload"] is None:
+            res.append((i, "event-let", None, "listener missing/unparsable"))
+        else:
+            try:
+                res.append((i, "event-let", sh.ts_shape(l["payload"]), ""))
+            except sh.ShapeError as e:
+                res.append((i, "event-let", None, str(e)))
     return res
 
 
